@@ -33,7 +33,9 @@ class _Gen:
         if r < self.p_exn + self.p_err + 0.10:
             return ["null"]
         if r < self.p_exn + self.p_err + 0.17:
-            return ["snull"]                       # custom scalar value that serialises to null
+            return ["snull"]
+        if r < self.p_exn + self.p_err + 0.25:
+            return ["echo"]                        # returns the `dflt` argument it received                       # custom scalar value that serialises to null
         if self.p_exn and r < self.p_exn + self.p_err + 0.20:
             return ["sbad", self.rng.randint(10, 19)]  # serialisation raises
         return ["int", self.rng.randint(-3, 40)]
@@ -65,9 +67,14 @@ class _Gen:
                 f["m"] = "V"
             elif not dict_parent and f["m"] == "V":
                 f["m"] = "A"
+            if f["b"][0] == "echo":
+                if f["m"] in ("A", "V"):              # attributes / dict values receive no arguments
+                    f["m"] = "P" if dict_parent else "S"
+                if self.rng.random() < 0.25:
+                    f.setdefault("args", {})["dflt"] = self.rng.randint(1, 9)
             if self.rng.random() < 0.3:   # 1-2 arguments whose names collide with library plumbing parameters
                 names = self.rng.sample(sp.allowed_args(f["m"] if f["m"] in ("P", "C") else "S"), self.rng.choice([1, 1, 2]))
-                f["args"] = {a: self.rng.randint(0, 9) for a in names}
+                f.setdefault("args", {}).update({a: self.rng.randint(0, 9) for a in names})
             if f["m"] in ("A", "V"):
                 key = (sp.shape_of(f), f["m"])
                 count[key] = count.get(key, 0) + 1
@@ -96,6 +103,7 @@ class _Gen:
         if rng.random() < 0.3:
             # a list of the union type; maybe with an item its resolve_type cannot type,
             # at the first / a middle / the last position
+            items = [it + ["T2"] if it[0] == "obj" and rng.random() < 0.5 else it for it in items]
             if rng.random() < 0.7:
                 items.insert(rng.choice([0, len(items) // 2, len(items)]), ["bad"])
             return ["list", inn, "abs", items]
